@@ -74,13 +74,20 @@ def handle (op : String) (j : Json) : Option (Except String Json) :=
       | .ok _ => do let l ← getNatList j "rows"; pure (some l)
       | .error _ => pure none
     let fuel := (j.getObjValAs? Nat "fuel").toOption.getD 100000
+    -- which cells are keys of the district dicts (absent = every cell): fixes `all_parties`, the order of first appearance
+    let present : List (List Bool) ← match j.getObjVal? "present" with
+      | .ok Json.null => pure (votes.map (fun r => r.map (fun _ => true)))
+      | .ok v => do let a ← fromJson? (α := Array (Array Bool)) v; pure (a.toList.map (·.toList))
+      | .error _ => pure (votes.map (fun r => r.map (fun _ => true)))
+    let ord := firstAppearance present
     -- the decidable hypotheses of `VL.C07.evaluate_ok_sound`, evaluated on this very input
     let hyp : List (String × Json) :=
       [("votes_ok", toJson (votesOk votes)), ("has_votes", toJson (hasVotes votes)),
+       ("mask_ok", toJson (maskOk present votes)), ("ord_covers", toJson (ordCovers ord votes)), ("ord", toJson ord),
        ("init_ok", match initState div q votes total with
           | .ok s0 => toJson (stateOk q votes s0)
           | .error _ => Json.null)]
-    pure (match evaluate div q votes total rows fuel with
+    pure (match evaluate div q ord votes total rows fuel with
       | .ok o => (outcomeJson o).mergeObj (Json.mkObj hyp)
       | .error e => (errJson e).mergeObj (Json.mkObj hyp))
   | "biprop_init" => some do
